@@ -59,4 +59,16 @@ func init() {
 		Real: []string{"AssembleFile", "writeChunk", "SeedSequencer", "Plan.Validate", "FileSeed", "fileSeedSegment", "selfSeed", "nullChunkSeed", "RegenerateIndex/IndexFromFile"},
 		Stub: []string{"chunk store", "FICLONERANGE (emulator)", "scheduler", "seed mutator"},
 	})
+	reg(&Prop{ID: "C07", Level: "exploration",
+		Quick:    Tier{Cases: 3200, PerJob: 200, Seconds: 60},
+		Thorough: Tier{Cases: 160000, PerJob: 2500, Seconds: 1500},
+		Rule: "one case = one entry point (AssembleFile incl. seed validation, VerifyIndex on a file with one damaged byte, ChopFile, Copy, ChunkStream, IndexFromFile, Tar, UnTar, UnTarIndex) with a tape-built workload and worker count; run A records a seeded schedule of S steps without cancellation, then the same schedule is re-run with the context cancelled before scheduling decision k for every k in 0..S+1 (S <= 150) or 60 tape-chosen k (sub_evaluations counts these runs); oracle: nil result => work complete (target == blob / every chunk stored / index covers the input / tree complete), the call returns, no panic; distinct = distinct (entry point, schedule hashes); non-trivial = at least one cancellation fired",
+		Assumptions: []string{
+			"cancellation is delivered between two scheduling decisions (channel/lock/store operation granularity)",
+			"a cancelled call that did finish its work may return nil or an error; only nil with incomplete work is a violation",
+			"signals to the CLI are represented by cancellation of the root context, which is all cmd/desync/main.go does on SIGINT/SIGTERM",
+		},
+		Real: []string{"AssembleFile", "Plan.Validate", "VerifyIndex", "ChopFile", "Copy", "ChunkStream", "IndexFromFile", "Tar", "UnTar", "UnTarIndex"},
+		Stub: []string{"chunk stores", "scheduler", "context cancellation instant"},
+	})
 }
